@@ -4,7 +4,8 @@ import random, json, os, re
 from rig import common, tp
 from rig.checks import c05, c10, c11
 
-EV_EVENTS = {"evnew", "call.ev", "ret.ev", "loop.gate", "loop.cb", "evcb", "mkready", "drained", "peerclose", "evcount"}
+EV_EVENTS = {"evnew", "call.ev", "ret.ev", "loop.gate", "loop.cb", "evcb", "mkready", "drained", "peerclose", "evcount",
+             "readerclose", "evreopen", "evmin"}
 KEEP = c11.KEEP | EV_EVENTS
 
 def prep(evs):
@@ -79,7 +80,7 @@ def ev_scenarios(rng, sid):
     def by(o, line, foreign):      # issue an op from the owning thread or from outside
         return ("m %s" % line) if foreign else ("w%d %s" % (o, line))
     blocks = []; kind_of = {}
-    kinds = ["del-other", "oneshot-write", "persist", "oneshot", "dispatch", "write", "timer1", "timerP", "timerD", "eof", "malformed", "foreign-disable", "redel"]
+    kinds = ["reopen-write", "err-write", "del-other", "oneshot-write", "persist", "oneshot", "dispatch", "write", "timer1", "timerP", "timerD", "eof", "malformed", "foreign-disable", "redel"]
     rng.shuffle(kinds)
     for kind in kinds[:rng.randint(4, 8)]:
         o = rng.randrange(n); x = nu(); f = rng.random() < 0.5
@@ -92,6 +93,15 @@ def ev_scenarios(rng, sid):
         elif kind == "oneshot":
             B += ["m evnew %d 0 0 0 1" % x, by(o, "evadd %d %d 0 1 0 0" % (x, o), f), "m mkready %d" % x, "m evwait %d 1 3000" % x, "Q", "m evcount %d" % x,
                   "m mkready %d" % x, "Q", "m evcount %d" % x, by(o, "evadd %d %d 0 1 0 0" % (x, o), f), "m evwait %d 2 3000" % x, "Q", "m evcount %d" % x]
+        elif kind == "reopen-write":
+            # the descriptor is closed without deleting the registration and its number is reused: adding again with the
+            # same user object must install the event (the library's MOD -> ENOENT -> ADD fallback)
+            B += ["m evnew %d 1 2 1 0" % x, "m fillpipe %d" % x, by(o, "evadd %d %d 1 0 0 0" % (x, o), False), "Q", "m evcount %d" % x,
+                  "m evreopen %d" % x, by(o, "evadd %d %d 1 0 0 0" % (x, o), False), "m evmin %d 1" % x, "m evwait %d 1 3000" % x, "Q", "m evcount %d" % x]
+        elif kind == "err-write":
+            # write end registered, the reader goes away: the kernel reports EPOLLERR without a hang-up bit
+            B += ["m evnew %d 1 2 2 0" % x, "m readerclose %d" % x, by(o, "evadd %d %d 1 0 0 0" % (x, o), False), "m evwait %d 1 3000" % x, "Q",
+                  "m evcount %d" % x]
         elif kind == "del-other":
             # two registrations on one thread, both ready before the loop polls again (added inside ONE callback of the
             # owner); whichever fires first deletes both: the other one must never be called
